@@ -160,6 +160,8 @@ def body(cfg, pres, labs):
 
 for N, ids, tier in ((3, [0, 1, 2], "quick"), (3, [0, 1, 2, 3], "thorough"), (4, [0, 1], "thorough"), (3, [1, 3, 4], "thorough")):
     for fl in ((True, True), (True, False), (False, True), (False, False)):
+        if tier == "thorough" and not fl[0]:
+            continue                  # (F,T) and (F,F) are the label-swapped images of (T,F) and (T,T)
         starts = ids
         if tier == "quick":
             parts = [([ids[0]], [0, 2]), ([ids[1]], [1]), ([ids[0]], [1]), ([ids[2]], [0])]
